@@ -41,6 +41,7 @@ import (
 	"encoding/json"
 	"errors"
 	"fmt"
+	"hash/crc32"
 	"hash/fnv"
 	"io"
 	"os"
@@ -439,7 +440,7 @@ func childEnv(extra ...string) []string {
 			k = kv[:i]
 		}
 		switch k {
-		case "VERIF_SHARD_OUT", "VERIF_JOURNAL", "VERIF_REPLAY", "VERIF_CRASHPOINT", "C13_REQ":
+		case "VERIF_SHARD_OUT", "VERIF_JOURNAL", "VERIF_REPLAY", "VERIF_CRASHPOINT", "C13_REQ", "VERIF_FUZZ_OUT", "GO_TEST_FUZZ_WORKER_ID":
 			continue
 		}
 		env = append(env, kv)
@@ -597,6 +598,9 @@ type fault struct {
 	// writer process per point, each killed at its point (or finding a complete entry)
 	Stale  bool     `json:"stale,omitempty"`
 	Points []string `json:"points,omitempty"`
+	// entry: these bytes are planted under the final name (native fuzzing); the oracle depends on
+	// how they relate to the reference entry (see classify)
+	Entry []byte `json:"entry,omitempty"`
 }
 
 func (f fault) param() string {
@@ -613,6 +617,8 @@ func (f fault) param() string {
 		return fmt.Sprintf("%d+%d", f.G, f.P)
 	case "sequence":
 		return fmt.Sprintf("stale=%v(%s) %s", f.Stale, f.Version, strings.Join(f.Points, ","))
+	case "entry":
+		return fmt.Sprintf("%d bytes, fnv %x", len(f.Entry), evid.Hash64(f.Entry))
 	}
 	return ""
 }
@@ -634,6 +640,7 @@ type modCtx struct {
 	lay      layout
 	work     string
 	seq      int
+	noChild  bool // native fuzz workers: never re-execute the binary
 }
 
 var ctxSeq struct {
@@ -695,7 +702,7 @@ func newModCtx(spec *modSpec) (mc *modCtx, err error) {
 	mc.wasmID = hex.EncodeToString(sum[:8])
 	ctxSeq.Lock()
 	ctxSeq.n++
-	mc.work = filepath.Join(evid.WorkDir(), fmt.Sprintf("m%d-%s", ctxSeq.n, mc.wasmID))
+	mc.work = filepath.Join(evid.WorkDir(), fmt.Sprintf("m%d-%d-%s", os.Getpid(), ctxSeq.n, mc.wasmID))
 	ctxSeq.Unlock()
 	os.RemoveAll(mc.work)
 	if err := os.MkdirAll(mc.work, 0o755); err != nil {
@@ -739,6 +746,9 @@ func newModCtx(spec *modSpec) (mc *modCtx, err error) {
 	}
 	if mc.lay, err = parseEntry(mc.ref); err != nil {
 		return nil, fmt.Errorf("reference entry does not have the documented layout: %v", err)
+	}
+	if crc32.Checksum(mc.ref[mc.lay.ExecStart:mc.lay.ExecEnd], castagnoli) != binary.LittleEndian.Uint32(mc.ref[mc.lay.ExecEnd:]) {
+		return nil, fmt.Errorf("reference entry: the checksum field is not the CRC-32C of the code segment (layout changed?)")
 	}
 	if spec.Dwarf && len(spec.Funcs) > 0 && (!mc.lay.HasSM || mc.lay.SMPairs == 0) {
 		return nil, fmt.Errorf("module with DWARF sections and %d functions: the entry does not end with a source map (the truncation of the source-map tail would not be exercised)", len(spec.Funcs))
@@ -911,6 +921,12 @@ func (mc *modCtx) runFault(f fault) (msg string, labels []string, infra error) {
 		return mc.faultConcurrent(f)
 	case "sequence":
 		return mc.faultSequence(f)
+	case "entry":
+		class := mc.classify(f.Entry)
+		if class == "" {
+			return "", []string{"entry:outside-fault-model"}, nil
+		}
+		return mc.faultEntryAs(class, fmt.Sprintf("planted entry (%s; classified as %s; reference entry %d bytes)", f.param(), class, len(mc.ref)), f.Entry)
 	}
 	return "", nil, fmt.Errorf("unknown fault kind %q", f.Kind)
 }
@@ -1121,8 +1137,64 @@ func (mc *modCtx) faultSequence(f fault) (msg string, labels []string, infra err
 	return m, labels, infra
 }
 
+var castagnoli = crc32.MakeTable(crc32.Castagnoli)
+
+// classify relates arbitrary bytes e to the reference entry and returns the fault class whose
+// oracle applies, or "" when e is outside the property's fault model (the property speaks of
+// truncated entries and entries of another version; the checksum additionally protects the
+// code segment; any other change of the directory is excluded by the documentation of
+// NewCompilationCacheWithDir: "the embedder must safeguard this directory from external
+// changes" - function offsets, counts, lengths and the source map carry no checksum).
+//
+//	identity  e is the reference entry
+//	version   e starts with the magic and a complete version field that differs from the
+//	          running version (whatever follows: the layout behind it belongs to that version)
+//	trunc     e is shorter than the reference and equals it wherever it is defined, except
+//	          possibly inside the code segment and its checksum
+//	corrupt   e has the reference's length and equals it outside code segment + checksum,
+//	          differs inside, and its checksum field does not match its code (module has code)
+func (mc *modCtx) classify(e []byte) string {
+	r, l := mc.ref, mc.lay
+	if bytes.Equal(e, r) {
+		return "identity"
+	}
+	if len(e) >= 7 && string(e[:6]) == "WAZEVO" && len(e) >= 7+int(e[6]) && string(e[7:7+int(e[6])]) != l.Version {
+		return "version"
+	}
+	if len(e) > len(r) {
+		return ""
+	}
+	hasCode := l.ExecEnd > l.ExecStart
+	inside := false
+	for i := range e {
+		if e[i] != r[i] {
+			if !hasCode || i < l.ExecStart || i >= l.ExecEnd+4 {
+				return ""
+			}
+			inside = true
+		}
+	}
+	if len(e) < len(r) {
+		return "trunc"
+	}
+	if !inside {
+		return ""
+	}
+	if crc32.Checksum(e[l.ExecStart:l.ExecEnd], castagnoli) == binary.LittleEndian.Uint32(e[l.ExecEnd:]) {
+		return "" // a consistent checksum: indistinguishable from a genuine entry
+	}
+	return "corrupt"
+}
+
 // faultEntry plants a faulty entry under the final name and lets a fresh runtime compile.
 func (mc *modCtx) faultEntry(f fault, entry []byte) (msg string, labels []string, infra error) {
+	return mc.faultEntryAs(f.Kind, fmt.Sprintf("entry with fault %s(%s)", f.Kind, f.param()), entry)
+}
+
+// faultEntryAs applies the oracle of fault class kind (trunc | version | corrupt | identity) to
+// the planted entry.
+func (mc *modCtx) faultEntryAs(kind, what string, entry []byte) (msg string, labels []string, infra error) {
+	f := fault{Kind: kind, Len: len(entry)}
 	// one directory per module is reused for all planted entries (creating directories is the
 	// dominant cost otherwise); it is emptied of everything but the planted file first.
 	dir := filepath.Join(mc.work, "planted")
@@ -1136,7 +1208,6 @@ func (mc *modCtx) faultEntry(f fault, entry []byte) (msg string, labels []string
 	if err := mc.plant(dir, entry); err != nil {
 		return "", nil, err
 	}
-	what := fmt.Sprintf("entry with fault %s(%s)", f.Kind, f.param())
 	s, cerr, p, infra := openSession(dir, mc.wasm)
 	defer s.close()
 	if infra != nil {
@@ -1149,9 +1220,22 @@ func (mc *modCtx) faultEntry(f fault, entry []byte) (msg string, labels []string
 		if o := wz.Classify(cerr); o.Kind == wz.KInternal {
 			return fmt.Sprintf("%s: CompileModule returned an internal error: %v", what, cerr), nil, nil
 		}
+		if kind == "identity" {
+			return fmt.Sprintf("%s: the complete reference entry is rejected: %v", what, cerr), nil, nil
+		}
 		return "", []string{f.Kind + ":reported-error"}, nil
 	}
 	now, present := readFinal(mc.finalPath(dir))
+	if kind == "identity" {
+		if !present || !bytes.Equal(now, mc.ref) {
+			return fmt.Sprintf("%s: the complete reference entry was removed or changed by CompileModule", what), nil, nil
+		}
+		tr := execTrace(context.Background(), s.rt, s.cm, mc.spec)
+		if !mc.uncached.equal(tr) {
+			return fmt.Sprintf("%s: trace of the module loaded from the reference entry differs from the uncached trace\n got:      %s\n uncached: %s", what, tr, mc.uncached), nil, nil
+		}
+		return "", []string{"identity:hit"}, nil
+	}
 	switch {
 	case !present, bytes.Equal(now, mc.ref):
 		// discarded and compiled afresh: safe to execute here
@@ -1177,6 +1261,16 @@ func (mc *modCtx) faultEntry(f fault, entry []byte) (msg string, labels []string
 	// and takes its first byte (0) as the source-map flag; cutting the entry anywhere behind
 	// that byte removes only bytes that are never read, and there is no code to execute.
 	exempt := f.Kind == "trunc" && mc.lay.ExecEnd == mc.lay.ExecStart && f.Len > mc.lay.ExecEnd
+	if mc.noChild {
+		if exempt { // no code: executing in this process is safe
+			tr := execTrace(context.Background(), s.rt, s.cm, mc.spec)
+			if !mc.uncached.equal(tr) {
+				return fmt.Sprintf("%s: entry without code accepted, trace differs from the uncached trace\n got:      %s\n uncached: %s", what, tr, mc.uncached), labels, nil
+			}
+			return "", append(labels, "trunc:no-code-entry-tail-cut-accepted(exempt)"), nil
+		}
+		return fmt.Sprintf("%s: CompileModule succeeded and the faulty entry is still in place unchanged (%d bytes, complete entry %d bytes): it was accepted as a cache hit instead of being reported or discarded and replaced (module not executed)", what, len(entry), len(mc.ref)), append(labels, f.Kind+":accepted-faulty-entry"), nil
+	}
 	s.close()
 	r, err := mc.spawn(dir, riskyTimeout)
 	if err != nil {
